@@ -851,30 +851,7 @@ class C15(Prop):
         return tag
 
     def finding_of(self, case, obs):
-        # F-C15 / F-C15b are fixed in /repo.  F-C15c: effective hide == 'both' (not True) with echo
-        # asked for and no dry-run: the command is echoed although both streams are hidden.
-        def eff(kw, cfg, name, flag=None):
-            v = kw.get(name)
-            if v is None:
-                v = flag if flag is not None else cfg.get(name)
-            return v
-
-        def hit(kw, cfg, flags=None):
-            flags = flags or {}
-            return eff(kw, cfg, "hide", flags.get("hide")) == "both" and \
-                bool(eff(kw, cfg, "echo", flags.get("echo"))) and \
-                eff(kw, cfg, "dry", flags.get("dry")) is not True
-        if case["kind"] == "opts":
-            return "F-C15c" if hit(case["kwargs"], case["config"].get("run", {})) else None
-        if case["kind"] == "cli":
-            a = case["args"]
-            flags = {"hide": a.get("hide") or None, "echo": True if a.get("echo") else None,
-                     "dry": True if a.get("dry") else None}
-            return "F-C15c" if hit(case["kwargs"], case["lower"].get("run", {}), flags) else None
-        cfg = case["config"].get("run", {})
-        for st in walk(case["prog"]):
-            if st[0] in ("run", "sudo") and hit(stmt_kw(st), cfg):
-                return "F-C15c"
+        # F-C15 / F-C15b / F-C15c are fixed in /repo (c2a3b37, 2644606, f03a111): nothing is attributed
         return None
 
     def shrink_candidates(self, case):
